@@ -6,7 +6,7 @@ package main
 //   rt        sizes {0,1,15,16,17,4 KiB,1 MiB} x write path x read path x cipher x base: read == written; stored
 //             length = header+12+n+16; a plaintext >= 16 B (and its first/last 16 bytes) is not a substring of
 //             the raw file; a second write of the same data stores different bytes
-//   tamper    EVERY truncation length and EVERY single-byte corruption (all 255 other values on memfs) of the
+//   tamper    EVERY truncation length and EVERY single-byte corruption (all 255 other values on memfs, and on diskfs in the thorough tier; one mask per position on diskfs in quick) of the
 //             stored bytes of the small files, a sample for the large ones: the read must fail (no data, no
 //             panic, no hang) and afterwards the file can be written and read again (no leaked lock)
 //   wrongkey  all ordered pairs of a settings matrix: another secret/salt must fail, unless the concatenations
@@ -18,7 +18,9 @@ package main
 import (
 	"bufio"
 	"bytes"
+	"errors"
 	"fmt"
+	"io"
 	"os"
 	"sort"
 	"strings"
@@ -40,7 +42,17 @@ type orc struct {
 	classes map[string]int
 	failed  map[string]int
 	current atomic.Value // description of the case in progress (for the watchdog)
+	ticks   int64        // progress counter: bumped whenever a new case starts
 }
+
+// at marks the start of a case.
+func (o *orc) at(desc string) {
+	o.current.Store(desc)
+	atomic.AddInt64(&o.ticks, 1)
+}
+
+// stallLimit: a single case (at most a 1 MiB file) takes milliseconds; no progress for this long means blocked.
+const stallLimit = 15 * time.Second
 
 func (o *orc) count(class string) { o.cases++; o.classes[class]++ }
 
@@ -53,7 +65,8 @@ func (o *orc) fail(class, detail string) {
 	}
 }
 
-// batch runs f under a generous watchdog: a leaked lock blocks for ever.
+// batch runs f under a generous watchdog: a leaked lock blocks for ever.  The batch is given up when no new
+// case was started for stallLimit (or after `limit` altogether).
 func (o *orc) batch(name string, limit time.Duration, f func()) {
 	done := make(chan struct{})
 	go func() {
@@ -62,10 +75,20 @@ func (o *orc) batch(name string, limit time.Duration, f func()) {
 			o.fail("panic", fmt.Sprintf("%s: %v during %v", name, v, o.current.Load()))
 		}
 	}()
-	select {
-	case <-done:
-	case <-time.After(limit):
-		o.fail("hang", fmt.Sprintf("%s: blocked during %v (a lock or handle was left behind)", name, o.current.Load()))
+	start, last, lastTick := time.Now(), time.Now(), atomic.LoadInt64(&o.ticks)
+	for {
+		select {
+		case <-done:
+			return
+		case <-time.After(100 * time.Millisecond):
+		}
+		if t := atomic.LoadInt64(&o.ticks); t != lastTick {
+			lastTick, last = t, time.Now()
+		}
+		if time.Since(last) > stallLimit || time.Since(start) > limit {
+			o.fail("hang", fmt.Sprintf("%s: blocked during %v (a lock or handle was left behind)", name, o.current.Load()))
+			return
+		}
 	}
 }
 
@@ -108,7 +131,7 @@ func (o *orc) roundTrips() {
 
 func (o *orc) oneRoundTrip(base, kind, wp, rp string, n int, hostOnly bool) {
 	desc := fmt.Sprintf("base=%s cipher=%s write=%s read=%s size=%d hostonly=%v", base, kind, wp, rp, n, hostOnly)
-	o.current.Store(desc)
+	o.at(desc)
 	o.count("rt")
 	b, cleanup, err := newBase(base)
 	if err != nil {
@@ -145,6 +168,22 @@ func (o *orc) oneRoundTrip(base, kind, wp, rp string, n int, hostOnly bool) {
 	} else if !bytes.Equal(content(parts), pt) {
 		o.fail("rt", desc+": read back different data")
 	}
+	if rp == "stream" {
+		// an ordinary consumer: fixed buffer, stops at the first EOF (an early EOF or a dropped tail shows here)
+		for _, bs := range []int{1, 7, n - 1, n, n + 1, 4096} {
+			if bs < 1 || (n > 5000 && bs < 4096 && bs != n-1) {
+				continue
+			}
+			got, err := readUntilEOF(fsR, fileName, bs)
+			if err != nil {
+				o.fail("rt", fmt.Sprintf("%s: stream read with a %d-byte buffer failed: %v", desc, bs, err))
+			} else if !bytes.Equal(got, pt) {
+				o.fail("rt", fmt.Sprintf("%s: stream read with a %d-byte buffer, stopping at EOF, delivered %d of %d bytes", desc,
+					bs, len(got), len(pt)))
+			}
+			o.count("rt-consumer")
+		}
+	}
 	if err = writeVia(fsW, fileName, wp, chunks); err != nil {
 		o.fail("rt", desc+": second write failed: "+err.Error())
 		return
@@ -156,12 +195,34 @@ func (o *orc) oneRoundTrip(base, kind, wp, rp string, n int, hostOnly bool) {
 	o.classes["rt:"+wp+">"+rp]++
 }
 
+// readUntilEOF reads like io.Copy does: one buffer, until the reader reports EOF (or 1<<22 reads).
+func readUntilEOF(fs FS, path string, bufSize int) ([]byte, error) {
+	r, err := fs.Reader(path)
+	if err != nil {
+		return nil, err
+	}
+	defer r.Close()
+	var out []byte
+	buf := make([]byte, bufSize)
+	for i := 0; i < 1<<22; i++ {
+		n, err := r.Read(buf)
+		out = append(out, buf[:n]...)
+		if err == io.EOF {
+			return out, nil
+		}
+		if err != nil {
+			return nil, err
+		}
+	}
+	return nil, errors.New("no EOF after 4M reads")
+}
+
 // ---------------------------------------------------------------------------------------------- tamper
 
 // expectReject stores `bad` below the encrypted filespace and demands an error from the read; then the file
 // must be writable and readable again.  Returns the fresh raw bytes.
 func (o *orc) expectReject(b FS, fs FS, desc string, rp string, bad []byte, pt []byte, what string) []byte {
-	o.current.Store(desc + " " + what)
+	o.at(desc + " " + what)
 	o.count("tamper")
 	if err := b.WriteFile(fileName, bad, filesystem.DefaultUnixFileMode); err != nil {
 		o.fail("infra", err.Error())
@@ -247,7 +308,9 @@ func (o *orc) tamperFile(base, kind, rp string, n int, desc string, exhaustive b
 		case o.tier == "quick":
 			masks = []int{0x01}
 		default:
-			masks = []int{0x01, 0x80, 0xff}
+			for m := 1; m < 256; m++ {
+				masks = append(masks, m)
+			}
 		}
 		for i := 0; i < L; i++ {
 			for _, m := range masks {
@@ -349,7 +412,7 @@ func (o *orc) wrongKeys() {
 			}
 			desc := fmt.Sprintf("writer=(%q,%q,host=%v) reader=(%q,%q,host=%v) cipher=%s %s>%s base=%s", a.secret, a.salt,
 				a.host, bset.secret, bset.salt, bset.host, kind, wp, rp, base)
-			o.current.Store(desc)
+			o.at(desc)
 			o.count("wrongkey")
 			b, cleanup, err := newBase(base)
 			if err != nil {
@@ -500,7 +563,7 @@ func nsApply(fs FS, r *hx.Rand, op int, p1, p2 string, data []byte) string {
 func (o *orc) nsSequences() {
 	nseq := 60
 	if o.tier != "quick" {
-		nseq = 600
+		nseq = 2000
 	}
 	for s := 0; s < nseq; s++ {
 		base := "mem"
@@ -525,11 +588,16 @@ func (o *orc) nsSequences() {
 					op = o.r.Intn(2) // keep the tree populated
 				}
 				p1, p2 := o.r.Pick(oraclePaths), o.r.Pick(oraclePaths)
+				if op >= 5 && op <= 7 && (p1 == p2 || strings.HasPrefix(p1, p2+"/") || strings.HasPrefix(p2, p1+"/")) {
+					// a copy onto itself / into itself is a matter of the base (diskfs truncates the file to nothing:
+					// C02), and an emptied ciphertext is then rightly unreadable; not part of this comparison
+					op = 9
+				}
 				// (diskfs.Writer does not create parent directories, memfs does: a matter of the base, C02 — and
 				// the same on both twins, so it does not disturb the comparison)
 				data := randBytes(o.r, o.r.Intn(40))
 				line := fmt.Sprintf("op%d(%s,%s)", op, p1, p2)
-				o.current.Store(line)
+				o.at(line)
 				o.count("ns")
 				var ra, rb string
 				pa, _ := hx.Guard(func() { ra = nsApply(enc, o.r, op, p1, p2, data) })
